@@ -1153,3 +1153,44 @@ pub fn two_adic_relations(p: &B) -> Vec<B> {
 fn gcd_u64(a: u64, b2: u64) -> u64 {
     if b2 == 0 { a } else { gcd_u64(b2, a % b2) }
 }
+
+/// Rational expressions of small depth in the constants of the curve (1, 2, a, d, zeta): E1 = x op y over the
+/// constants, E2 = E1 op constant (both orders), closed under negation and inversion at the end. Exceptional
+/// inputs of formulas (roots of their linear factors, values a transposed or mis-parenthesised constant
+/// expression would single out) are of this shape; about 2-3 thousand values.
+pub fn constant_expressions(c: &Curve) -> Vec<B> {
+    use std::sync::OnceLock;
+    static CACHE: OnceLock<Vec<B>> = OnceLock::new();
+    CACHE.get_or_init(|| {
+        let f = &c.f;
+        let e0: Vec<B> = vec![b(1), b(2), c.a.clone(), c.d.clone(), c.zeta.clone()];
+        let ops = |x: &B, y: &B| -> Vec<B> {
+            let mut v = vec![f.add(x, y), f.sub(x, y), f.mul(x, y)];
+            if let Some(q) = f.div(x, y) {
+                v.push(q);
+            }
+            v
+        };
+        let mut e1: Vec<B> = Vec::new();
+        for x in &e0 {
+            for y in &e0 {
+                e1.extend(ops(x, y));
+            }
+        }
+        e1.sort();
+        e1.dedup();
+        let mut all: Vec<B> = e0.clone();
+        all.extend(e1.iter().cloned());
+        for x in &e1 {
+            for y in &e0 {
+                all.extend(ops(x, y));
+                all.extend(ops(y, x));
+            }
+        }
+        let more: Vec<B> = all.iter().flat_map(|v| { let mut o = vec![f.neg(v)]; if let Some(i) = f.inv(v) { o.push(f.neg(&i)); o.push(i); } o }).collect();
+        all.extend(more);
+        all.sort();
+        all.dedup();
+        all
+    }).clone()
+}
